@@ -257,7 +257,9 @@ pub fn run_round(mix: Mix, threads: usize, ops: usize, seed: u64, inject_yields:
     }
     drop(tx);
     let mut outputs: Vec<Option<String>> = vec![None; threads];
-    let deadline = Duration::from_secs(30 + (ops as u64) / 20);
+    // the watchdog counts wall-clock time: under Miri (interpreted, about four orders of magnitude slower) it is
+    // left to the caller's own generous timeout, whose firing is inconclusive
+    let deadline = if cfg!(miri) { Duration::from_secs(6 * 3600) } else { Duration::from_secs(30 + (ops as u64) / 20) };
     for _ in 0..threads {
         match rx.recv_timeout(deadline.saturating_sub(start.elapsed()).max(Duration::from_millis(1))) {
             Ok((t, Ok(text))) => outputs[t] = Some(text),
